@@ -4,7 +4,11 @@
 //
 // Variants (macros): VH_THREADING, VH_KEY (0 int, 1 long std::string), VH_INCLUDE (1: the event is
 // the first argument of the prototype, dispatch/enqueue use the `Args...` forms),
-// VH_PROTO (0 by value, 1 const reference), VH_ORDERED (0 std::list, 1 ascending, 2 descending).
+// VH_PROTO (0 by value, 1 const reference), VH_ORDERED (0 std::list, 1 ascending, 2 descending),
+// VH_GETEVENT (1: a user getEvent policy that maps the raw key of the call to the event, with an explicit
+// ArgumentPassingInclude/ExcludeEvent mode; the script's key k is passed as a raw key that the policy maps
+// back to k), VH_CCI (1: a canContinueInvoking policy, configured per script by `cfg cci M R`:
+// continue iff M == 0 or value % M != R).
 #include "common.h"
 #include <eventpp/eventqueue.h>
 #include <eventpp/mixins/mixinfilter.h>
@@ -24,6 +28,12 @@
 #endif
 #ifndef VH_ORDERED
 #define VH_ORDERED 0
+#endif
+#ifndef VH_GETEVENT
+#define VH_GETEVENT 0
+#endif
+#ifndef VH_CCI
+#define VH_CCI 0
 #endif
 
 using namespace vh;
@@ -49,16 +59,32 @@ struct Payload {
 #if VH_KEY == 0
 using KeyT = int;
 static KeyT mkKey(long k) { return (int)k; }
+// the key as an event of the dispatcher (what the policy yields): never masked
 static long keyNum(const KeyT & k) { return k; }
+#if VH_GETEVENT
+static KeyT mkRaw(long k, long v) { return (int)(k + 256 * (1 + ((v % 3) + 3) % 3)); }
+static KeyT maskKey(const KeyT & raw) { return raw & 0xff; }
+#endif
 #else
 using KeyT = std::string;
 static KeyT mkKey(long k) { return std::string("a-rather-long-event-key-beyond-sso-") + std::to_string(k); }
 static long keyNum(const KeyT & k) {
 	const std::string p = "a-rather-long-event-key-beyond-sso-";
 	if(k.compare(0, p.size(), p) != 0) return -1; // moved-from / corrupted key
+	if(k.find('#') != std::string::npos) return -2; // a raw key that was not mapped by the policy
 	return std::atol(k.c_str() + p.size());
 }
+#if VH_GETEVENT
+static KeyT mkRaw(long k, long v) { return mkKey(k) + "#raw-suffix-of-the-call-" + std::to_string(v % 3); }
+static KeyT maskKey(const KeyT & raw) { return raw.substr(0, raw.find('#')); }
 #endif
+#endif
+#if !VH_GETEVENT
+static KeyT mkRaw(long k, long) { return mkKey(k); }
+static KeyT maskKey(const KeyT & raw) { return raw; }
+#endif
+// the key argument a listener / filter / predicate received (include form): the raw key of the call
+static long argKeyNum(const KeyT & k) { return keyNum(maskKey(k)); }
 
 #if VH_ORDERED == 2
 struct DescCompare {
@@ -70,8 +96,42 @@ template <typename Item> using OrderedDesc = eventpp::OrderedQueueList<Item, Des
 #ifndef VH_MAP
 #define VH_MAP 0
 #endif
+static long g_cciM = 0, g_cciR = 0;
+static long g_policyMoved = 0; // a policy received a moved-from argument
+static bool cciVerdict(const Payload & a) {
+	if(!a.valid) ++g_policyMoved;
+	return g_cciM == 0 || ((a.v % g_cciM) + g_cciM) % g_cciM != g_cciR;
+}
 struct Policies {
 	using Threading = VH_THREADING;
+#if VH_GETEVENT
+	// parameters by value on purpose (VH_PROTO == 0): whatever the library passes in is consumed here
+#if VH_PROTO == 0
+	static KeyT getEvent(KeyT raw, Payload a) { if(!a.valid) ++g_policyMoved; return maskKey(raw); }
+#else
+	static KeyT getEvent(const KeyT & raw, const Payload & a) { if(!a.valid) ++g_policyMoved; return maskKey(raw); }
+#endif
+#if VH_INCLUDE
+	using ArgumentPassingMode = eventpp::ArgumentPassingIncludeEvent;
+#else
+	using ArgumentPassingMode = eventpp::ArgumentPassingExcludeEvent;
+#endif
+#endif
+#if VH_CCI
+#if VH_PROTO == 0
+#if VH_INCLUDE
+	static bool canContinueInvoking(KeyT, Payload a) { return cciVerdict(a); }
+#else
+	static bool canContinueInvoking(Payload a) { return cciVerdict(a); }
+#endif
+#else
+#if VH_INCLUDE
+	static bool canContinueInvoking(const KeyT &, const Payload & a) { return cciVerdict(a); }
+#else
+	static bool canContinueInvoking(const Payload & a) { return cciVerdict(a); }
+#endif
+#endif
+#endif
 	using Mixins = eventpp::MixinList<eventpp::MixinFilter>;
 #if VH_MAP == 1
 	template <typename Key, typename T> using Map = std::map<Key, T>;   // ordered map instead of the default hashed one
@@ -158,9 +218,11 @@ struct World {
 	std::vector<long> dispatchKeyStack;               // key of the dispatch currently running (for key integrity)
 
 	explicit World(const Script & s) : script(&s), box(), nkeys(s.nlists) {
+		g_cciM = g_cciR = 0; g_policyMoved = 0;
 		for(auto & l : s.cfg) {
 			auto t = toks(l);
 			if(t.size() >= 4 && t[1] == "rw") rw[std::atol(t[2].c_str())] = std::atol(t[3].c_str());
+			if(t.size() >= 4 && t[1] == "cci") { g_cciM = VH_CCI ? std::atol(t[2].c_str()) : 0; g_cciR = std::atol(t[3].c_str()); }
 		}
 	}
 
@@ -184,14 +246,10 @@ struct World {
 	}
 
 	void doDispatch(long key, int arg) {
-#if VH_INCLUDE
-		q.dispatch(mkKey(key), Payload(arg));
-#else
-		q.dispatch(mkKey(key), Payload(arg));
-#endif
+		q.dispatch(mkRaw(key, arg), Payload(arg));
 	}
 	void doEnqueue(long key, int arg) {
-		q.enqueue(mkKey(key), Payload(arg));
+		q.enqueue(mkRaw(key, arg), Payload(arg));
 	}
 
 	// the handle is currently a listener of another event: outside every property, skipped
@@ -242,7 +300,7 @@ struct World {
 			long p = c.n(1);
 			auto pred = [this, p](LARGS) -> bool {
 #if VH_INCLUDE
-				return runBeh("pred", keyNum(k), 0, p, a.show());
+				return runBeh("pred", argKeyNum(k), 0, p, a.show());
 #else
 				return runBeh("pred", -1, 0, p, a.show());
 #endif
@@ -318,20 +376,21 @@ struct World {
 		out.push_back(f);
 		out.push_back("ledger " + std::to_string(g_livePayload) + " " + std::to_string(g_liveCb) + " " + std::to_string(g_doubleDtor)
 			+ " " + std::to_string(g_useAfter));
+		if(g_policyMoved) out.push_back("policy-got-moved-from-argument " + std::to_string(g_policyMoved));
 	}
 };
 
 #undef q
 void CbFn::operator()(LARGS) const {
 #if VH_INCLUDE
-	if(keyNum(k) != key) g_world->out.push_back("keymismatch listener-of " + std::to_string(key) + " got " + std::to_string(keyNum(k)));
+	if(argKeyNum(k) != key) g_world->out.push_back("keymismatch listener-of " + std::to_string(key) + " got " + std::to_string(argKeyNum(k)));
 #endif
 	g_world->runBeh("listener", key, hid, cb, a.show());
 }
 
 #if VH_INCLUDE
 bool FilterFn::operator()(KeyT & k, FARG a) const {
-	long key = keyNum(k);
+	long key = argKeyNum(k);
 #else
 bool FilterFn::operator()(FARG a) const {
 	long key = -1;
